@@ -22,6 +22,8 @@ props.prop(
             'that a change detector never acts on a value without remembering it',
     not_decided='which choices a picker offers or selects, distinctness of the image axes, callback-property values',
     assumptions=['LayerArtistContainer notifies synchronously on every mutation'])
+props.also('C18',
+           'membership of a layer in the artist container by identity; change detectors compare with and store the same field')
 
 M = 'glue.core.message.'
 V = 'glue.viewers.common.viewer.Viewer'
